@@ -19,9 +19,13 @@
 //! (declared length met / last chunk / END_STREAM / orderly close for close-delimited)
 //! exactly when the sender ended cleanly (abort scenarios end uncleanly on purpose).
 //!
-//! op blackbox <front h1|h2> <back h1|h2> <buffer_size> <n> <req none|cl|chunked|data> <req_size>
-//!             <resp cl|chunked|close|data|datacl> <resp_size> <step> <chunk> <pad> <cfrag> <cpause>
-//!             <bfrag> <bpause> <sockbuf> <win> <abort 0|1|2> <seed>
+//! op blackbox <front h1|h2> <back h1|h2> <buffer_size> <n>
+//!             <req none|head|cl|clexp|chunked|chunkedtr|data|datacl|datatr> <req_size>
+//!             <resp cl|chunked|chunkedtr|close|data|datacl|datatr|head|s204|s304> <resp_size> <step> <chunk> <pad>
+//!             <cfrag> <cpause> <bfrag> <bpause> <sockbuf> <win> <abort 0|1|2> <seed>
+//!             [<stagger 0|1|2> <bset_delay_ms> <sep_end 0|1> <mix 0|1> <interim 0|103>]
+//! (sep_end: an H2 sender ends on an empty DATA frame of its own, also after a HEAD / 204 / 304 header block;
+//!  interim: the backend sends that 1xx in the same write as its final response, the client must see it once)
 //! output: obs ok|fail <exchanges> <req bytes> <resp bytes> ... / viol <class> <text>
 use std::{
     collections::HashMap,
@@ -98,6 +102,8 @@ struct Scn {
     sep_end: bool,
     /// even exchanges are GETs with the response size, odd exchanges uploads with a 100-byte answer
     mix: bool,
+    /// the backend sends this interim response (103) before every final one; 0 = none
+    interim: i32,
     /// h2c backend: hold its SETTINGS back for this long after reading the preface (legal, RFC 9113 sets no deadline)
     bset_delay_ms: u64,
 }
@@ -145,10 +151,11 @@ impl Scn {
     }
     fn shape(&self) -> String {
         format!(
-            "pair={}->{} n={} req={}:{} resp={}:{} step={} chunk={} pad={} cfrag={} cpause={} bfrag={} bpause={} sockbuf={} win={} abort={} bufsz={} stagger={} bset_delay_ms={} sep_end={} mix={}",
+            "pair={}->{} n={} req={}:{} resp={}:{} step={} chunk={} pad={} cfrag={} cpause={} bfrag={} bpause={} sockbuf={} win={} abort={} bufsz={} stagger={} bset_delay_ms={} sep_end={} mix={}{}",
             if self.front_h2 { "h2" } else { "h1" }, if self.back_h2 { "h2" } else { "h1" }, self.n, self.req_fr, self.req_size,
             self.resp_fr, self.resp_size, self.step, self.chunk, self.pad, self.cfrag, self.cpause, self.bfrag, self.bpause,
-            self.sockbuf, self.win, self.abort, self.bufsz, if self.pipeline { 2 } else { self.stagger as u8 }, self.bset_delay_ms, self.sep_end as u8, self.mix as u8
+            self.sockbuf, self.win, self.abort, self.bufsz, if self.pipeline { 2 } else { self.stagger as u8 }, self.bset_delay_ms, self.sep_end as u8, self.mix as u8,
+            if self.interim != 0 { format!(" interim={}", self.interim) } else { String::new() }
         )
     }
 }
@@ -187,6 +194,8 @@ struct Xchg {
     resp_recv: Vec<u8>,
     resp_end: End,
     status: i32,
+    /// interim (1xx) responses the client saw before the final one
+    interims: Vec<i32>,
     /// the sender of that direction finished writing, or one of its writes returned EWOULDBLOCK
     req_sender_blocked_or_done: bool,
     resp_sender_blocked_or_done: bool,
@@ -945,9 +954,14 @@ fn h1_backend_conn(tcp: TcpStream, cur: Current) {
         let body = pattern(scn.seed, idx, 1, scn.resp_len(idx));
         let abort_at = if scn.abort == 1 && body.len() >= 2 { Some(body.len() / 2) } else { None };
         let mut msg = vec![];
+        if scn.interim != 0 {
+            msg.extend_from_slice(format!("HTTP/1.1 {} Early Hints\r\nLink: </c01.css>; rel=preload\r\n\r\n", scn.interim).as_bytes());
+        }
         match scn.resp_fr.as_str() {
             "head" => msg.extend_from_slice(format!("HTTP/1.1 200 OK\r\nContent-Length: {}\r\n\r\n", scn.declared_resp_len(idx)).as_bytes()),
             "s204" => msg.extend_from_slice(b"HTTP/1.1 204 No Content\r\n\r\n"),
+            // a 304 may declare the length of the representation it does not send (RFC 9110 8.6)
+            "s304" if scn.resp_size > 0 => msg.extend_from_slice(format!("HTTP/1.1 304 Not Modified\r\nETag: \"c01\"\r\nContent-Length: {}\r\n\r\n", scn.declared_resp_len(idx)).as_bytes()),
             "s304" => msg.extend_from_slice(b"HTTP/1.1 304 Not Modified\r\nETag: \"c01\"\r\n\r\n"),
             "chunked" | "chunkedtr" => {
                 if scn.resp_trailers() {
@@ -1250,17 +1264,29 @@ fn respond_h2(c: &mut Conn, tx: &mut H2Tx, sh: &Arc<Shared>, sid: u32, idx: usiz
     let scn = &sh.scn;
     let body = pattern(scn.seed, idx, 1, scn.resp_len(idx));
     let mut enc = loona_hpack::Encoder::new();
+    if scn.interim != 0 {
+        let mut block = vec![];
+        let _ = enc.encode_header_into((&b":status"[..], scn.interim.to_string().as_bytes()), &mut block);
+        let _ = enc.encode_header_into((&b"link"[..], &b"</c01.css>; rel=preload"[..]), &mut block);
+        c.queue(&frame(T_HEADERS, 0x4, sid, &block));
+    }
     let mut block = vec![];
     let _ = enc.encode_header_into((&b":status"[..], scn.expected_status().to_string().as_bytes()), &mut block);
     if scn.resp_fr == "datacl" {
         let _ = enc.encode_header_into((&b"content-length"[..], body.len().to_string().as_bytes()), &mut block);
     }
     if scn.bodyless() {
-        if scn.resp_fr == "head" {
+        if scn.resp_fr == "head" || (scn.resp_fr == "s304" && scn.resp_size > 0) {
             let _ = enc.encode_header_into((&b"content-length"[..], scn.declared_resp_len(idx).to_string().as_bytes()), &mut block);
         }
-        // no body may follow: END_STREAM on the HEADERS frame
-        c.queue(&frame(T_HEADERS, 0x5, sid, &block));
+        if scn.sep_end {
+            // no body: the end of the message on an empty DATA frame of its own
+            c.queue(&frame(T_HEADERS, 0x4, sid, &block));
+            c.queue(&frame(T_DATA, 0x1, sid, &[]));
+        } else {
+            // no body may follow: END_STREAM on the HEADERS frame
+            c.queue(&frame(T_HEADERS, 0x5, sid, &block));
+        }
         sh.with(idx, |x| x.resp_sender_blocked_or_done = true);
         return;
     }
@@ -1371,6 +1397,7 @@ fn h1_client(front: SocketAddr, sh: Arc<Shared>) {
                     let status = h.split(' ').nth(1).and_then(|s| s.parse::<i32>().ok()).unwrap_or(-1);
                     if (100..200).contains(&status) {
                         // interim response: the final one follows; 100 Continue releases a held body
+                        sh.with(i, |x| x.interims.push(status));
                         if let Some(b) = held_body.take() {
                             sh.with(i, |x| x.notes.push("client: 100 Continue received".into()));
                             c.queue(&b);
@@ -1470,6 +1497,7 @@ fn h2_client(front: SocketAddr, sh: Arc<Shared>) {
     let mut rx: HashMap<u32, (usize, usize)> = HashMap::new();
     let mut total_got = 0usize;
     let mut paused_once = scn.cpause == 0;
+    let mut tx_window_blocked = false;
     let mut hdr_acc: Option<(u32, u8, Vec<u8>)> = None;
     let mut open_streams = scn.n;
     let mut credit = Credit::new(scn.win, (0..scn.n).map(|i| scn.resp_len(i)).sum());
@@ -1508,7 +1536,11 @@ fn h2_client(front: SocketAddr, sh: Arc<Shared>) {
                             let idx = e.0;
                             if let Some((_, v)) = hs.iter().find(|(k, _)| k == b":status") {
                                 let st = String::from_utf8_lossy(v).parse::<i32>().unwrap_or(-1);
-                                sh.with(idx, |x| if x.status == 0 { x.status = st });
+                                if (100..200).contains(&st) && flags & 1 == 0 {
+                                    sh.with(idx, |x| x.interims.push(st));
+                                } else {
+                                    sh.with(idx, |x| if x.status == 0 { x.status = st });
+                                }
                             }
                             if flags & 1 != 0 {
                                 sh.with(idx, |x| x.resp_end = End::Clean);
@@ -1613,6 +1645,9 @@ fn h2_client(front: SocketAddr, sh: Arc<Shared>) {
                 for (k, v) in [(&b":method"[..], method), (b":scheme", b"https"), (b":path", scn.path(i).as_bytes()), (b":authority", b"localhost")] {
                     let _ = enc.encode_header_into((k, v), &mut block);
                 }
+                if scn.req_fr == "datacl" {
+                    let _ = enc.encode_header_into((&b"content-length"[..], body.len().to_string().as_bytes()), &mut block);
+                }
                 c.queue(&frame(T_HEADERS, if post { 0x4 } else { 0x5 }, sid, &block));
                 rx.insert(sid, (i, 0));
                 if post {
@@ -1631,6 +1666,7 @@ fn h2_client(front: SocketAddr, sh: Arc<Shared>) {
             while !c.pending() {
                 match tx.next() {
                     Some((bytes, done)) => {
+                        tx_window_blocked = false;
                         c.queue(&bytes);
                         if let Some(idx) = done {
                             sh.with(idx, |x| x.req_sender_blocked_or_done = true);
@@ -1638,6 +1674,7 @@ fn h2_client(front: SocketAddr, sh: Arc<Shared>) {
                     }
                     None => {
                         // nothing may be sent: every open upload is blocked on a flow-control window
+                        tx_window_blocked = !tx.idle();
                         for s in &tx.streams {
                             sh.with(s.4, |x| x.req_sender_blocked_or_done = true);
                         }
@@ -1676,11 +1713,14 @@ fn h2_client(front: SocketAddr, sh: Arc<Shared>) {
             return;
         }
         let mut want_read = true;
-        // (mix mode: the pause starts while the client's own uploads — which fit the initial windows — are still
-        // going out, and lasts until they are done and the response senders are stuck or done)
+        // (mix mode: the pause starts while the client's own uploads are still going out, and lasts until they are
+        // done — or need a WINDOW_UPDATE that only reading can bring: sozu announces a stream window no larger than
+        // its buffer — and the response senders are stuck or done)
         if !paused_once && total_got >= scn.cpause && opened && (scn.mix || (tx.idle() && !c.pending())) {
-            let all = (0..scn.n).all(|i| sh.with(i, |x| x.resp_sender_blocked_or_done || x.resp_end != End::Open).unwrap_or(true))
-                && tx.idle()
+            // (an exchange whose upload waits for a WINDOW_UPDATE has no response sender yet)
+            let waits_for_credit = |i: usize| scn.mix && tx_window_blocked && tx.streams.iter().any(|s| s.4 == i);
+            let all = (0..scn.n).all(|i| waits_for_credit(i) || sh.with(i, |x| x.resp_sender_blocked_or_done || x.resp_end != End::Open).unwrap_or(true))
+                && (tx.idle() || (scn.mix && tx_window_blocked))
                 && !c.pending()
                 && (!scn.mix || mix_phase == 2);
             if all {
@@ -1840,6 +1880,7 @@ fn parse_scn(a: &[Tok], nonce: u64) -> Option<Scn> {
         sockbuf: n(15), win: n(16) as u32, abort: n(17) as u8, seed: n(18) as u64, nonce,
         stagger: a.len() > 19 && n(19) == 1, pipeline: a.len() > 19 && n(19) == 2 && s(0) == "h1", bset_delay_ms: if a.len() > 20 { n(20) as u64 } else { 0 },
         sep_end: a.len() > 21 && n(21) != 0, mix: a.len() > 22 && n(22) != 0,
+        interim: if a.len() > 23 { n(23) as i32 } else { 0 },
     })
 }
 
@@ -1854,7 +1895,7 @@ fn run_scn(env: &mut Env, scn: Scn, out: &mut Out) {
     let total: usize = (0..scn.n).map(|i| scn.req_len(i) + scn.resp_len(i)).sum();
     let deadline = Instant::now() + Duration::from_secs(60 + (total / 200_000) as u64);
     let xs = (0..scn.n)
-        .map(|_| Xchg { req_recv: vec![], req_end: End::Open, resp_recv: vec![], resp_end: End::Open, status: 0, req_sender_blocked_or_done: false, resp_sender_blocked_or_done: false, notes: vec![] })
+        .map(|_| Xchg { req_recv: vec![], req_end: End::Open, resp_recv: vec![], resp_end: End::Open, status: 0, interims: vec![], req_sender_blocked_or_done: false, resp_sender_blocked_or_done: false, notes: vec![] })
         .collect();
     let sh = Arc::new(Shared { scn: scn.clone(), x: Mutex::new(xs), deadline, progress: Mutex::new((0, Instant::now())), client_ports: Mutex::new(vec![]), backend_peer_ports: Mutex::new(vec![]), unread: Mutex::new((0, 0)), backend_prefaces: std::sync::atomic::AtomicUsize::new(0) });
     *env.cur.lock().unwrap() = Some(sh.clone());
@@ -1965,6 +2006,11 @@ fn run_scn(env: &mut Env, scn: Scn, out: &mut Out) {
         }
         ok &= check("request", &req, &x.req_recv, x.req_end, true, out);
         ok &= check("response", &resp, &x.resp_recv, x.resp_end, scn.abort != 1 || resp.len() < 2, out);
+        // an interim response is forwarded, once, before the final one (RFC 9110 15.2)
+        if scn.interim != 0 && scn.abort == 0 && x.interims.iter().filter(|c| **c == scn.interim).count() != 1 {
+            out.viol("interim-lost", &format!("exchange {i}: the backend sent one {} before its final answer, the client saw interim responses {:?} ({shape}){notes}", scn.interim, x.interims));
+            ok = false;
+        }
     }
     if !alive {
         out.viol("worker-died", &format!("the worker thread ended during the scenario ({shape})"));
